@@ -43,7 +43,7 @@ for P in sorted(props):
     anchors = set(props[P]['anchors']['files']); have = included(P); cand = []
     for u, fs in ufiles.items():
         if u in have or uhome[u] == P: continue
-        hit = umain.get(u, set()) & anchors
+        hit = (umain.get(u, set()) & anchors) | set(f for f in (fs & anchors) if f.endswith('.c'))  # main functions, or any real function of a .c anchor file
         # headers pulled in everywhere carry obligations in many units: require a non-trivial overlap
         if hit: cand.append((u, uhome[u], round(usecs[u]), sorted(hit)))
     if cand:
